@@ -57,15 +57,15 @@ def lift_chunks(l2, data_size):
 def lift_filter(fid, props):
     name = FNAME.get(fid)
     if fid >= (1 << 62):
-        return dict(id="reserved", plen=len(props), pok=True)
+        return dict(id="reserved", plen=len(props), pok=True, idv='ok', psv='ok')
     if name is None:
-        return dict(id="unknown", plen=len(props), pok=True)
+        return dict(id="unknown", plen=len(props), pok=True, idv='ok', psv='ok')
     pok = True
     if name == 'lzma2' and len(props) == 1:
         pok = props[0] <= 40
     elif name in ALIGN and len(props) == 4:
         pok = int.from_bytes(props, "little") % ALIGN[name] == 0
-    return dict(id=name, plen=len(props), pok=pok)
+    return dict(id=name, plen=len(props), pok=pok, idv='ok', psv='ok')
 
 def read_header_fields(data, off):
     """fields of the Block Header at `off` as far as they can be read (xz-file-format 3.1); CRC32 / validity are not judged here"""
@@ -91,8 +91,8 @@ def read_header_fields(data, off):
     return r
 
 def default_block(did):
-    return dict(hsz=12, resv=False, cs=dict(p=False, v=0, vli=True), us=dict(p=False, v=0, vli=True),
-                filters=[dict(id="lzma2", plen=1, pok=True)], fits=True, hpad=2, hpadz=True, hcrc=True,
+    return dict(hsz=12, resv=False, cs=dict(p=False, v=0, vli=True, vc='ok', big=''), us=dict(p=False, v=0, vli=True, vc='ok', big=''),
+                filters=[dict(id="lzma2", plen=1, pok=True, idv='ok', psv='ok')], fits=True, hpad=2, hpadz=True, hcrc=True,
                 chunks=[dict(END(), id=1)], did=did, bpadz=True, chk=True)
 
 def vlen(v):
@@ -104,12 +104,14 @@ def complete_stream(S):
     recs = []
     for b in S['blocks']:
         data = sum(1 if c['k'] == 'end' else c['c'] for c in b['chunks'])
-        recs.append(dict(u=b['hsz'] + data + cs, n=sum(c['n'] for c in b['chunks'] if c['k'] != 'end')))
+        recs.append(dict(u=b['hsz'] + data + cs, n=sum(c['n'] for c in b['chunks'] if c['k'] != 'end'), ub='', nb=''))
     S.setdefault('icount', len(recs)); S.setdefault('irecs', recs)
     for k in ('ivli', 'ipadz', 'icrc', 'fcrc', 'fvers', 'fmagic', 'hmagic', 'hvers', 'hcrc'):
         S.setdefault(k, True)
     S.setdefault('fcheck', S['check'])
-    body = 1 + vlen(S['icount']) + sum(vlen(r['u']) + vlen(r['n']) for r in S['irecs']) + (0 if S['ivli'] else 1)
+    S.setdefault('ivpos', 0 if S['ivli'] else 1); S.setdefault('ivcls', 'ok' if S['ivli'] else 'nonmin'); S.setdefault('icb', ''); S.setdefault('fbb', '')
+    S['irecs'] = [dict(dict(ub='', nb=''), **r) for r in S['irecs']]
+    body = 1 + vlen(S['icount']) + sum(vlen(r['u']) + vlen(r['n']) for r in S['irecs'])
     S.setdefault('fbs', ((body + 3) & ~3) + 4)
     S.setdefault('pad', 0)
     return S
@@ -156,8 +158,8 @@ def lift(data):
             B = default_block(did)
             last_block = last_stream and bi == len(gs['blocks']) - 1
             B['hsz'] = gb['header_size']
-            B['cs'] = dict(p=gb['compressed_size'] is not None, v=gb['compressed_size'] or 0, vli=True)
-            B['us'] = dict(p=gb['uncompressed_size'] is not None, v=gb['uncompressed_size'] or 0, vli=True)
+            B['cs'] = dict(p=gb['compressed_size'] is not None, v=gb['compressed_size'] or 0, vli=True, vc='ok', big='')
+            B['us'] = dict(p=gb['uncompressed_size'] is not None, v=gb['uncompressed_size'] or 0, vli=True, vc='ok', big='')
             B['filters'] = [lift_filter(fid, pr) for fid, pr in gb['filters']] or B['filters']
             body = 2 + (vlen(B['cs']['v']) if B['cs']['p'] else 0) + (vlen(B['us']['v']) if B['us']['p'] else 0) + \
                 sum((9 if f['id'] == 'reserved' else 1) + 1 + f['plen'] for f in B['filters'])
@@ -215,14 +217,14 @@ def lift(data):
             else:
                 if not h['complete']:
                     raise CannotLift("rejected header cannot be read")
-                B['cs'] = dict(p=h['cs'] is not None, v=h['cs'] or 0, vli=True)
-                B['us'] = dict(p=h['us'] is not None, v=h['us'] or 0, vli=True)
+                B['cs'] = dict(p=h['cs'] is not None, v=h['cs'] or 0, vli=True, vc='ok', big='')
+                B['us'] = dict(p=h['us'] is not None, v=h['us'] or 0, vli=True, vc='ok', big='')
                 B['filters'] = [lift_filter(fid, pr) for fid, pr in h['filters']]
                 B['hpad'] = len(h['pad']); B['hpadz'] = not any(h['pad'])
                 if B['cs']['v'] >= (1 << 28) or B['us']['v'] >= (1 << 28):
                     raise CannotLift("size beyond the model's integer range")
             if B['hpad'] < 0 and B['hsz'] == 8:
-                B['filters'] = [dict(id="x86", plen=0, pok=True)]; B['hpad'] = 0      # 8-byte header: only the layout size matters here
+                B['filters'] = [dict(id="x86", plen=0, pok=True, idv='ok', psv='ok')]; B['hpad'] = 0      # 8-byte header: only the layout size matters here
             if B['hpad'] < 0:
                 raise CannotLift("header layout of a rejected header")
             S['blocks'].append(B)
@@ -234,7 +236,7 @@ def lift(data):
             if c == 'error:index_vli': S['ivli'] = False
             elif c == 'error:index_count':
                 S['icount'] = ev[p + "index.count"][2]
-                S['irecs'] = [dict(u=24, n=0)] * S['icount'] if S['icount'] < 64 else None
+                S['irecs'] = [dict(u=24, n=0, ub='', nb='')] * S['icount'] if S['icount'] < 64 else None
                 if S['irecs'] is None: raise CannotLift("huge count")
             elif c in ('error:index_record', 'error:index_mismatch'):
                 # the records as stored, as far as glue read them; the rest as the Blocks say
